@@ -1,4 +1,4 @@
-From Coq Require Import ZArith List Bool Lia.
+From Coq Require Import ZArith QArith Qround List Bool Lia.
 From PV.Model Require Import KernelAccess.
 Import ListNotations.
 Open Scope Z_scope.
@@ -46,4 +46,31 @@ Proof.
   unfold unchecked_touches. intros [H|H].
   - replace (0 <=? i) with false by (symmetry; apply Z.leb_gt; lia). reflexivity.
   - replace (i <? Z.of_nat len) with false by (symmetry; apply Z.ltb_ge; lia). apply andb_false_r.
+Qed.
+
+(* ---------- the bin number is a valid column ---------- *)
+Theorem symbolise_in_range r n_bins undef : 1 <= n_bins -> rescaled_ok r ->
+  0 <= symbolise_guarded r n_bins undef < n_bins.
+Proof.
+  intros Hn Hr. destruct r as [| |q]; cbn [symbolise_guarded]; try lia.
+  cbn [rescaled_ok] in Hr. destruct (Qle_bool 1 q) eqn:E; [lia|].
+  assert (Hq : (q < 1)%Q).
+  { apply Qnot_le_lt. intros C. apply Qle_bool_iff in C. congruence. }
+  set (x := (q * inject_Z n_bins)%Q).
+  assert (X0 : (0 <= x)%Q).
+  { unfold x. apply Qmult_le_0_compat; [assumption|]. change 0%Q with (inject_Z 0).
+    rewrite <- Zle_Qle. lia. }
+  assert (X1 : (x < inject_Z n_bins)%Q).
+  { unfold x. rewrite <- (Qmult_1_l (inject_Z n_bins)) at 2.
+    apply Qmult_lt_compat_r; [|assumption]. change 0%Q with (inject_Z 0). rewrite <- Zlt_Qlt. lia. }
+  split.
+  - change 0 with (Qfloor (inject_Z 0)). apply Qfloor_resp_le. exact X0.
+  - rewrite Zlt_Qlt. apply Qle_lt_trans with x; [apply Qfloor_le|assumption].
+Qed.
+(* without the guard a NaN sample selects an arbitrary (e.g. negative) column *)
+Theorem symbolise_unguarded_escapes n_bins : 1 <= n_bins ->
+  exists undef, ~ (0 <= symbolise_unguarded FNaN n_bins undef < n_bins).
+Proof.
+  intros Hn. exists (-1). unfold symbolise_unguarded.
+  replace (-1 <? n_bins) with true by (symmetry; apply Z.ltb_lt; lia). lia.
 Qed.
